@@ -35,7 +35,8 @@ def strategy(tier):
     # (empty, failing, slow) producer too: for this family only those two clauses are judged
     flush = B.with_schedule(B.program(nmax=6, kinds=('call', 'map', 'map', 'amap', 'await', 'wait', 'wait'), fail_p=2), 1) \
         .map(lambda c: dict(c, flush=True))
-    return st.one_of(vt, vt, vt, foreign, flush)
+    tied = st.builds(lambda c, tie: dict(c, tie=tie), vt, st.integers(1, 10 ** 6))     # same-instant timers in a seeded order
+    return st.one_of(vt, vt, tied, foreign, flush)
 
 
 def run_case(case):
